@@ -1314,6 +1314,10 @@ class Interp(object):
             except AttributeError:
                 self.raise_(AttributeError, name)
         if isinstance(v, Opaque):
+            if v.what.startswith('havocked local'):
+                # a value the loop treatment could not keep: using it would
+                # silently drop whatever the use does
+                self.undecided('use of %s.%s' % (v.what, name), node)
             return Opaque('%s.%s' % (v.what, name))
         if isinstance(v, Closure):
             self.raise_(AttributeError, name)
@@ -2022,6 +2026,8 @@ class Interp(object):
             self.havoc_field(mf[0], mf[1], keep_null=len(mf) > 2)
         if spec.modifies_db:
             self.db.havoc(spec.modifies_db)
+            for tb in spec.modifies_db:
+                self.event('db.write', tb, 'loop:' + name, self.db._tid())
         mode = self.ex.choose(2, tag=name)
         if spec.invariant is not None:
             for f in spec.invariant(self, frame, None, None):
@@ -2128,6 +2134,10 @@ class Interp(object):
             if holder is None:
                 continue
             cur = holder.locals[nm]
+            if isinstance(cur, Native) and getattr(cur, 'loop_stable', False):
+                # a stub whose state lives elsewhere (request context: the
+                # ghost database): method calls on it do not change the local
+                continue
             if isinstance(cur, (VList, VDict)) and not cur.items and \
                     not getattr(cur, 'present', None) and nm in mutated and \
                     getattr(cur, 'default', None) is None and \
@@ -2155,6 +2165,10 @@ class Interp(object):
         self.keepnull = keepnull
         if spec.modifies_db:
             self.db.havoc(spec.modifies_db)
+            # the iterations (not re-executed on this path) may have written
+            # these tables in the current transaction
+            for tb in spec.modifies_db:
+                self.event('db.write', tb, 'loop:' + name, self.db._tid())
         db_writes0 = len(self.db.writes) if self.db is not None else 0
         self._loop_db_mark = (db_writes0, spec.modifies_db)
         for rc in replay_colls:
